@@ -500,8 +500,13 @@ where
                  -> ExResult<ValueDerivative<T, OF, LM>> {
                     let one = DeepEx::one();
                     let val = f.val.clone().pow(g.val.clone())?;
-                    let g_minus_1 = (g.val.clone() - one)?;
-                    let der_1 = ((f.val.clone().pow(g_minus_1)? * g.val)? * f.der)?;
+                    let der_1 = if f.der.is_zero() {
+                        // the term f^(g-1)*g*f' vanishes, f^(g-1) is not needed and might be 0^0
+                        f.der
+                    } else {
+                        let g_minus_1 = (g.val.clone() - one)?;
+                        ((f.val.clone().pow(g_minus_1)? * g.val)? * f.der)?
+                    };
                     let der_2 = ((val.clone() * f.val.ln()?)? * g.der)?;
                     let der = (der_1 + der_2)?;
                     Ok(ValueDerivative { val, der })
